@@ -831,6 +831,256 @@ fn gen_meta(out: &mut impl Write, thorough: bool) {
     }
 }
 
+// =====================================================================================
+// Derived values: every built-in value with its own `get_value` / indexing
+//
+//   mg <lens> <types> <entry> <i>     `a|chain(b, c, d)` over operands of the given lengths
+//                                     (types: L list / P tuple per operand), subscript i
+//   dv <mode> <entry> <id> <key>      DERIVED[id] subscripted: `lhs~~rhs~~kind~~mat`
+//                                     lhs = x[key], rhs = (x|list)[key], mat = items of x|list
+//   ds <mode> <id> <a> <b> <c>        sliced: lhs = items of x[a:b:c], rhs = items of (x|list)[a:b:c]
+// =====================================================================================
+const DERIVED: &[(&str, &str)] = &[
+    ("chain_e_xs", "e|chain(xs)"),
+    ("chain_xs_e", "xs|chain(e)"),
+    ("chain_e_e_xs_e", "e|chain(e, xs, e)"),
+    ("chain_xs_e_t", "xs|chain(e, t)"),
+    ("chain_t0_xs", "t0|chain(xs, xs)"),
+    ("chain_nested", "(e|chain(xs))|chain(e|chain(e), t)"),
+    ("chain_nested_head", "(e|chain(e))|chain(xs)"),
+    ("chain_one", "xs|chain"),
+    ("chain_mixed_str", "s|chain(xs)"),
+    ("chain_mixed_iter", "e|chain(it, xs)"),
+    ("chain_maps", "m|chain(m2)"),
+    ("add_e_xs", "e + xs"),
+    ("add_xs_xs", "xs + xs"),
+    ("add_t_t", "t + t"),
+    ("add_t0_t", "t0 + t"),
+    ("add_xs_it", "xs + it"),
+    ("add_add", "(e + e) + (xs + e)"),
+    ("batch", "xs|batch(2)"),
+    ("batch_row", "(xs|batch(2))[0]"),
+    ("batch_fill", "xs|batch(2, 'x')"),
+    ("batch_last", "(xs|batch(2, 'x'))[-1]"),
+    ("slicef", "xs|slice(2)"),
+    ("slicef_row", "(xs|slice(2))[1]"),
+    ("items", "m|items"),
+    ("items_pair", "(m|items)[0]"),
+    ("dictsort", "m|dictsort"),
+    ("dictsort_pair", "(m|dictsort(reverse=true))[0]"),
+    ("zip", "xs|zip(t)"),
+    ("zip_pair", "(xs|zip(t))[1]"),
+    ("groupby", "recs|groupby('k')"),
+    ("group", "(recs|groupby('k'))[0]"),
+    ("group_list", "(recs|groupby('k'))[0].list"),
+    ("group_1", "(recs|groupby('k'))[1][1]"),
+    ("range5", "range(5)"),
+    ("range_step", "range(0, 10, 3)"),
+    ("range_down", "range(5, 0, -2)"),
+    ("range_empty", "range(0)"),
+    ("rev_xs", "xs|reverse"),
+    ("rev_t", "t|reverse"),
+    ("rev_s", "s|reverse"),
+    ("rev_it", "it|reverse"),
+    ("rev_ux", "ux|reverse"),
+    ("rev_range", "range(4)|reverse"),
+    ("rev_chain", "(e|chain(xs))|reverse"),
+    ("list_xs", "xs|list"),
+    ("list_s", "s|list"),
+    ("list_m", "m|list"),
+    ("list_ux", "ux|list"),
+    ("map_str", "xs|map('string')"),
+    ("map_attr", "recs|map(attribute='k')"),
+    ("select", "xs|select('odd')"),
+    ("reject", "range(6)|reject('odd')"),
+    ("selectattr", "recs|selectattr('k')"),
+    ("sort", "[3, 1, 2]|sort"),
+    ("unique", "[1, 1, 2]|unique"),
+    ("split", "'a,b,c'|split(',')"),
+    ("lines", "'a\nb'|lines"),
+    ("py_items", "m.items()"),
+    ("py_keys", "m.keys()"),
+    ("py_values", "m.values()"),
+    ("py_split", "'a b c'.split()"),
+    ("ser_tuple", "ser_tuple"),
+    ("ser_struct_list", "ser_vec"),
+    ("kwargs_items", "m|items|list"),
+    ("slice_of_chain", "(e|chain(xs, t))[1:]"),
+    ("slice_of_add", "(e + xs)[::-1]"),
+    ("str", "s"),
+    ("safe", "s|safe"),
+    ("upper", "s|upper"),
+    ("ns", "namespace(a=1)"),
+    ("cycler", "cycler([1, 2])"),
+    ("joiner", "joiner(',')"),
+    ("dict", "dict(a=1)"),
+    ("merge_ctx", "merged"),
+];
+
+fn derived_env(mode: &str) -> Environment<'static> {
+    let mut env = Environment::new();
+    env.set_undefined_behavior(mode_of(mode));
+    minijinja_contrib::add_to_environment(&mut env);
+    env.set_unknown_method_callback(minijinja_contrib::pycompat::unknown_method_callback);
+    env
+}
+
+fn derived_ctx() -> Value {
+    let mut m: BTreeMap<String, Value> = BTreeMap::new();
+    m.insert("a".into(), Value::from(1));
+    m.insert("b".into(), Value::from(2));
+    let mut m2: BTreeMap<String, Value> = BTreeMap::new();
+    m2.insert("c".into(), Value::from(3));
+    let rec = |k: i64, v: i64| { let mut r: BTreeMap<String, Value> = BTreeMap::new(); r.insert("k".into(), Value::from(k)); r.insert("v".into(), Value::from(v)); Value::from(r) };
+    context! {
+        xs => vec![10, 20, 30],
+        e => Vec::<i64>::new(),
+        t => Value::from(Tuple::from(vec![Value::from(7), Value::from(8)])),
+        t0 => Value::from(Tuple::from(Vec::<Value>::new())),
+        s => "héy",
+        m => Value::from(m),
+        m2 => Value::from(m2),
+        it => Value::make_iterable(|| 100..103i64),
+        ux => Value::make_iterable(|| { let mut i = 0i64; std::iter::from_fn(move || if i < 3 { i += 1; Some(200 + i) } else { None }) }),
+        recs => vec![rec(0, 1), rec(1, 2), rec(1, 3)],
+        ser_tuple => Value::from(minijinja::value::Serde((1, "two", 3.5))),
+        ser_vec => Value::from(minijinja::value::Serde(vec![(1, 2), (3, 4)])),
+        merged => minijinja::value::merge_maps([Value::from(vec![1, 2, 3]), Value::from(vec![4, 5])]),
+    }
+}
+
+fn dbg_val(v: &Value) -> String {
+    if v.is_undefined() { "undef".into() } else { format!("{:?}", v).replace('\t', " ").replace('\n', " ") }
+}
+
+fn items_of(v: &Value) -> String {
+    match v.try_iter() {
+        Ok(it) => it.map(|x| dbg_val(&x)).collect::<Vec<_>>().join(" ¦ "),
+        Err(e) => err_str(&e),
+    }
+}
+
+fn derived_expr(id: &str) -> &'static str {
+    DERIVED.iter().find(|(i, _)| *i == id).map(|(_, e)| *e).unwrap_or("undefined_name")
+}
+
+fn res_str(r: Result<Result<String, minijinja::Error>, String>) -> String {
+    match r { Ok(Ok(s)) => s, Ok(Err(e)) => err_str(&e), Err(_) => "panic".into() }
+}
+
+fn run_dv(mode: &str, entry: &str, id: &str, key: &str) -> String {
+    let x = derived_expr(id);
+    let env = derived_env(mode);
+    let ctxk = || { let c = derived_ctx(); context! { k => mk_spec(key), ..c } };
+    let ev = |src: &str| res_str(guarded(|| env.compile_expression(src).and_then(|e| e.eval(ctxk())).map(|o| dbg_val(&o))));
+    let lhs = match entry {
+        "expr" => ev(&format!("({})[k]", x)),
+        "attr" => ev(&format!("({})|attr(k)", x)),
+        "tmpl" => {
+            let mut env2 = derived_env(mode);
+            env2.add_function("probe", |v: Value| -> String { PROBE.with(|p| *p.borrow_mut() = Some(dbg_val(&v))); String::new() });
+            PROBE.with(|p| *p.borrow_mut() = None);
+            match guarded(|| env2.render_str(&format!("{{% for q in [1] %}}{{{{ probe(({})[k]) }}}}{{% endfor %}}", x), ctxk())) {
+                Ok(Ok(_)) => PROBE.with(|p| p.borrow_mut().take()).unwrap_or_else(|| "no-probe".into()),
+                Ok(Err(e)) => err_str(&e),
+                Err(_) => "panic".into(),
+            }
+        }
+        "api" => res_str(guarded(|| env.compile_expression(x).and_then(|e| e.eval(ctxk())).and_then(|o| o.get_item(&mk_spec(key))).map(|o| dbg_val(&o)))),
+        "apiidx" => {
+            let idx = key.split_once(':').unwrap().1.parse::<u64>().unwrap() as usize;
+            res_str(guarded(|| env.compile_expression(x).and_then(|e| e.eval(ctxk())).and_then(|o| o.get_item_by_index(idx)).map(|o| dbg_val(&o))))
+        }
+        _ => "bad-entry".into(),
+    };
+    let rhs = ev(&format!("(({})|list)[k]", x));
+    let kind = res_str(guarded(|| env.compile_expression(x).and_then(|e| e.eval(ctxk())).map(|o| o.kind().to_string())));
+    let mat = res_str(guarded(|| env.compile_expression(&format!("({})|list", x)).and_then(|e| e.eval(ctxk())).map(|o| items_of(&o))));
+    format!("{}~~{}~~{}~~{}", lhs, rhs, kind, mat)
+}
+
+fn run_ds(mode: &str, id: &str, a: &str, b: &str, c: &str) -> String {
+    let x = derived_expr(id);
+    let env = derived_env(mode);
+    let ctxk = || { let cx = derived_ctx(); context! { a => mk_spec(a), b => mk_spec(b), c => mk_spec(c), ..cx } };
+    let ev = |src: &str| res_str(guarded(|| env.compile_expression(src).and_then(|e| e.eval(ctxk())).map(|o| {
+        if o.kind() == ValueKind::String { o.as_str().unwrap().chars().map(|c| dbg_val(&Value::from(c))).collect::<Vec<_>>().join(" ¦ ") } else { items_of(&o) }
+    })));
+    let lhs = ev(&format!("({})[a:b:c]", x));
+    let rhs = ev(&format!("(({})|list)[a:b:c]", x));
+    let kind = res_str(guarded(|| env.compile_expression(x).and_then(|e| e.eval(ctxk())).map(|o| o.kind().to_string())));
+    let mat = res_str(guarded(|| env.compile_expression(&format!("({})|list", x)).and_then(|e| e.eval(ctxk())).map(|o| items_of(&o))));
+    format!("{}~~{}~~{}~~{}", lhs, rhs, kind, mat)
+}
+
+/// `mg <lens> <types> <entry> <i>`: operands hold consecutive numbers 0,1,2,…
+fn run_mg(lens: &str, types: &str, entry: &str, i: &str) -> String {
+    let lens: Vec<usize> = lens.split(',').filter(|x| !x.is_empty()).map(|x| x.parse().unwrap()).collect();
+    let mut next = 0i64;
+    let mut ops = Vec::new();
+    for (n, ty) in lens.iter().zip(types.chars()) {
+        let items: Vec<Value> = (0..*n).map(|_| { next += 1; Value::from(next - 1) }).collect();
+        ops.push(if ty == 'P' { Value::from(Tuple::from(items)) } else { Value::from(items) });
+    }
+    let names = ["a", "b", "c", "d"];
+    let src = format!("{}|chain({})", names[0], names[1..ops.len()].join(", "));
+    let mut it = ops.into_iter();
+    let ctx = context! { a => it.next().unwrap_or_default(), b => it.next().unwrap_or_default(), c => it.next().unwrap_or_default(), d => it.next().unwrap_or_default(), k => mk_spec(i) };
+    let env = Environment::new();
+    let show = |o: Value| if o.is_undefined() { "undef".to_string() } else { format!("elem:{}", o) };
+    res_str(guarded(|| {
+        let x = env.compile_expression(&src)?.eval(ctx.clone())?;
+        if x.kind() != ValueKind::Seq { return Ok(format!("not-seq:{}", x.kind())); }
+        match entry {
+            "expr" => Ok(show(env.compile_expression(&format!("({})[k]", src))?.eval(ctx.clone())?)),
+            "attr" => Ok(show(env.compile_expression(&format!("({})|attr(k)", src))?.eval(ctx.clone())?)),
+            "api" => Ok(show(x.get_item(&mk_spec(i))?)),
+            _ => Ok("bad-entry".into()),
+        }
+    }))
+}
+
+fn gen_derived(out: &mut impl Write, thorough: bool) {
+    // ---- MergeSeq: all operand-length vectors (1..=4 operands, lengths 0..=3) x every index
+    for nops in 1..=4usize {
+        let total = 4usize.pow(nops as u32);
+        for code in 0..total {
+            let lens: Vec<usize> = (0..nops).map(|p| (code / 4usize.pow(p as u32)) % 4).collect();
+            let sum: i64 = lens.iter().sum::<usize>() as i64;
+            let ls = lens.iter().map(|x| x.to_string()).collect::<Vec<_>>().join(",");
+            for types in [&"LLLL"[..nops], &"PLPL"[..nops]] {
+                for i in (-sum - 2)..=(sum + 1) {
+                    for entry in ["expr", "attr", "api"] {
+                        if !thorough && nops == 4 && entry != "expr" { continue; }
+                        let k = format!("i:{}", i);
+                        writeln!(out, "mg {} {} {} {}\t{}", ls, types, entry, k, run_mg(&ls, types, entry, &k)).unwrap();
+                    }
+                }
+                for k in ["T", "F", "u:0", "I:-1", "u:9223372036854775808", "I:-9223372036854775809"].into_iter().chain(std::iter::once(fb(0.0).as_str())).chain(std::iter::once(fb(-1.0).as_str())) {
+                    writeln!(out, "mg {} {} expr {}\t{}", ls, types, k, run_mg(&ls, types, "expr", k)).unwrap();
+                }
+            }
+        }
+    }
+    // ---- derived values x keys x entries
+    let mut keys: Vec<String> = (-7..=7i64).map(|i| format!("i:{}", i)).collect();
+    for k in ["T", "F", "u:0", "u:2", "I:-1", "I:1", "W:0", "u:9223372036854775808", "I:-9223372036854775809", "U", "Z", "sm:30", "sm:6b"] { keys.push(k.to_string()); }
+    for f in [0.0, 1.0, -1.0, 2.0, 0.5] { keys.push(fb(f)); }
+    for (id, _) in DERIVED {
+        for k in &keys {
+            for (mode, entry) in [("L", "expr"), ("X", "expr"), ("L", "attr"), ("L", "api"), ("C", "tmpl"), ("L", "apiidx")] {
+                if entry == "apiidx" && !k.starts_with("u:") { continue; }
+                writeln!(out, "dv {} {} {} {}\t{}", mode, entry, id, k, run_dv(mode, entry, id, k)).unwrap();
+            }
+        }
+        let bs = ["_", "i:0", "i:1", "i:2", "i:-1", "i:-2", "i:5", "i:-9", "T", "u:9223372036854775808"];
+        let cs = ["_", "i:1", "i:2", "i:-1", "i:-2", "i:0"];
+        for a in bs { for b in bs { for c in cs {
+            writeln!(out, "ds L {} {} {} {}\t{}", id, a, b, c, run_ds("L", id, a, b, c)).unwrap();
+        } } }
+    }
+}
+
 fn main() {
     quiet_panics();
     let args: Vec<String> = std::env::args().collect();
@@ -905,6 +1155,7 @@ fn main() {
             gen_glue(&mut out, thorough);
             gen_long(&mut out, thorough);
             gen_meta(&mut out, thorough);
+            gen_derived(&mut out, thorough);
             if !thorough {
                 // literal forms on a sub-box (the parser's negative-literal path)
                 for kind in ["strsmall", "list", "tuple"] {
@@ -931,6 +1182,9 @@ fn main() {
                 "gi" => run_gi(f[1], f[2], f[3], f[4]),
                 "ga" => run_ga(f[1], f[2], f[3], f[4]),
                 "long" => run_long(f[1], f[2].parse().unwrap(), f[3], f[4], f[5]),
+                "mg" => run_mg(f[1], f[2], f[3], f[4]),
+                "dv" => run_dv(f[1], f[2], f[3], f[4]),
+                "ds" => run_ds(f[1], f[2], f[3], f[4], f[5]),
                 "meta" => run_meta(f[1], f[2], f[3].parse().unwrap(), f[4], f[5], f[6]),
                 _ => "bad-case".into(),
             };
